@@ -134,6 +134,8 @@ def mutate(draw, v, root_structure=False):  # noqa: C901, PLR0911, PLR0912
     is_key = len(path) >= 3 and path[-1] == 0 and path[-3] == "v" and isinstance(get_at(v, path[:-3]), dict) \
         and get_at(v, path[:-3]).get("$") in ("d", "dd", "custmap", "itemsonly", "dictsub")
     ops = ["replace_leaf", "replace_soup", "lookalike"]
+    if node is None or isinstance(node, bool) or (isinstance(node, (int, float, str)) and node in (0, 1, "1")):
+        ops += ["lookalike", "lookalike"]   # True/1/1.0/"1", False/0/None: the values the coercion rules are about
     if isinstance(node, (int, float)) and not isinstance(node, bool):
         ops += ["hostile_number", "hostile_number"]
     if isinstance(node, str):
